@@ -951,6 +951,41 @@ def unsavable_stream(scratch):
     return n, fails
 
 
+def latefail_stream(scratch):
+    """impl-only: the reply of a waiting (nowait=False) launch / continue is the outcome the process ENDED with - outputs or error -
+    also when the process replaced its future on the way (a hook failing after the result had been set)"""
+    w = _init_worker()
+    asyncio, plumpy, pc, lp = w['asyncio'], w['plumpy'], w['pc'], w['lp']
+    fails, n = [], 0
+    for pers_kind in ('mem', 'pickle'):
+        for how in ('launch', 'continue'):
+            ss = Session(scratch, pers_kind, 'default')
+            n += 1
+            try:
+                if how == 'launch':
+                    task = pc.create_launch_body(lp.LateFail, init_kwargs={'inputs': {'n': 3}}, persist=False, nowait=False)
+                else:
+                    proc = lp.LateFail(inputs={'n': 3}, loop=ss.loop)
+                    ss.pers.save_checkpoint(proc)
+                    task = pc.create_continue_body(proc.pid, nowait=False)
+                reply, err = None, None
+                try:
+                    reply = ss.loop.run_until_complete(ss.launcher(None, task))
+                except BaseException as e:  # noqa
+                    err = type(e).__name__
+                if err is None:
+                    fails.append(dict(signature='reply-is-stale-outcome', clause='otherwise the reply is the process\'s outputs or its error '
+                                      '(the process ended EXCEPTED, the reply was its earlier outputs)',
+                                      detail=dict(persister=pers_kind, task=how, reply=repr(reply)[:100]),
+                                      case=dict(latefail=True, persister=pers_kind, task=how)))
+            finally:
+                try:
+                    ss.loop.close()
+                except Exception:  # noqa
+                    pass
+    return n, fails
+
+
 def run(ctx):
     scratch = common.scratch_dir(PROPERTY)
     try:
@@ -965,6 +1000,8 @@ def _run(ctx, scratch):
     divergences, failures = [], []
     n_unsav, f_unsav = unsavable_stream(scratch)
     failures.extend(f_unsav)
+    n_late, f_late = latefail_stream(scratch)
+    failures.extend(f_late)
     distinct = set()
     hist = dict(task_type={}, reply={}, config={}, via={}, history_length={}, failure_signatures={}, unsavable_stream=n_unsav)
     n_tasks = 0
@@ -1006,7 +1043,7 @@ def _run(ctx, scratch):
     # minimise the first failure of each signature
     shrunk = set()
     for f in failures:
-        if f['signature'] in shrunk or f['signature'] in ('harness-error',) or f['case'].get('unsavable'):
+        if f['signature'] in shrunk or f['signature'] in ('harness-error',) or f['case'].get('unsavable') or f['case'].get('latefail'):
             continue
         shrunk.add(f['signature'])
         c = f['case']
@@ -1030,6 +1067,12 @@ def _run(ctx, scratch):
 def replay(ctx, failure):
     c = failure['case']
     scratch = common.scratch_dir(PROPERTY)
+    if c.get('latefail'):
+        try:
+            n, fails = latefail_stream(scratch)
+            return dict(runs=n, failures=[dict(signature=f['signature'], detail=f['detail']) for f in fails])
+        finally:
+            common.rm_scratch(scratch)
     if c.get('unsavable'):
         try:
             n, fails = unsavable_stream(scratch)
